@@ -130,6 +130,64 @@ func c07_8(c *core.Ctx, p *core.Prog) {
 			"every record of the slice is released, unconditionally, on every return",
 			strings.Join(msgs, "; ")+": the record stays counted by the consumer's limited allocator, in-use memory grows with every batch and a long stream ends in 'memory limit exceeded'")
 	}
+	// functions that hand their records to a releasing helper instead of looping themselves:
+	// `defer releaseRecords(records)` established before any return, or a call on every path
+	for changed := true; changed; {
+		changed = false
+		for _, fn := range sortedFuncs(p, reach) {
+			if fn.Synthetic != "" || fn.Parent() != nil || releasers[fn] {
+				continue
+			}
+			var recs *ssa.Parameter
+			for _, pr := range fn.Params {
+				if isRecordMsgSlice(pr.Type()) {
+					recs = pr
+				}
+			}
+			if recs == nil {
+				continue
+			}
+			ownRelease := false
+			for _, f := range core.WithClosures(fn) {
+				core.EachInstr(f, func(j ssa.Instruction) {
+					if cl, ok := j.(*ssa.Call); ok && cl.Call.IsInvoke() && cl.Call.Method.Name() == "Release" {
+						ownRelease = true
+					}
+				})
+			}
+			if ownRelease {
+				continue // judged above
+			}
+			var via ssa.CallInstruction
+			core.EachCall(fn, func(ci ssa.CallInstruction) {
+				if _, isGo := ci.(*ssa.Go); isGo {
+					return
+				}
+				callee := ci.Common().StaticCallee()
+				if callee == nil || !releasers[callee] {
+					return
+				}
+				for _, a := range ci.Common().Args {
+					if core.Canon(a) == ssa.Value(recs) {
+						via = ci
+					}
+				}
+			})
+			if via == nil {
+				continue
+			}
+			missed, _ := (core.PathQuery{Fn: fn, Avoid: func(i ssa.Instruction) bool { return i == via.(ssa.Instruction) }, ExitReturnOnly: true}).Exists()
+			n++
+			key := "fn=" + core.FuncName(fn)
+			if !missed {
+				releasers[fn] = true
+				changed = true
+			}
+			c.Check(!missed, key, p.Pos(via.Pos()), core.FuncName(fn),
+				"the records are handed to "+via.Common().StaticCallee().Name()+", which releases every one of them, on every return",
+				"a return is reachable before the records are handed to the releasing helper: the records stay counted by the consumer's limited allocator")
+		}
+	}
 	// (d) every Consumer.*From hands the consumed records to a releasing function on every success path of Consume
 	for _, from := range methodsOf(p, pkgArrowRecord, "Consumer", "TracesFrom", "LogsFrom", "MetricsFrom") {
 		var consume *ssa.Call
